@@ -42,6 +42,7 @@ func init() {
 			"Sequence contexts (interpreter only; one hash-selected context per (location, configuration) at rate 2/7, thorough 4/7): a sequence file in a loader directory hands a LIST of locations to a builtin that calls load-file (or a host Go include builtin calling env.LoadFile | env.LoadFileContext) back once per element - shapes map 'list | map 'vector | select | reject | map with the include builtin | foldl with the include builtin | foldl over a lambda | funcall in a dotimes | apply in a mapped lambda | consecutive top-level forms - where the earlier elements are marker files of OTHER directories (alone, in pairs, mixed with a file of the same directory) and the last element is the location under test, or the relative request reaching a loader file of another (or the same) directory which then loads the location under test; the later loads must still resolve against the sequence file's directory, and each of them must reach the library with the sequence file's true location as loading context. " +
 			"String-sourced contexts (interpreter only; one hash-selected context per (location, configuration) at rate 3/14, thorough 5/14): the load is issued by code evaluated from a string, []byte or reader under a stream name drawn by the PRNG from the layout's label pool (no name, a word, a relative path through directories that exist inside or outside the root spelled relative to the root, relative to the working directory or absolutely, the path of a real file of another directory, '..'-laden and unclean spellings, a directory reached through a link, a trailing slash, a directory that does not exist, a URL, a random path of 1-4 components), entered by the host through LoadString | LoadStringContext | Load | LoadContext or by lisp through load-string | load-bytes with and without :name (plain, inside a let, a lambda, a map, a string inside a string), at top level or from a running file in a loader directory, and loading the location under test itself or a loader file which then loads it; string-sourced code has no loading file, so the model reads its locations like top-level ones, the library must be handed the empty context location for its calls, and the same load repeated under a control name must evaluate the same files in the same order. " +
 			"An unconfined RelativeFileSystemLibrary{} is exercised in the loader, hop, sequence and string-sourced contexts for the relative-resolution clause (and the independence from the stream name) only. " +
+			"Histories through one library value (one per case, after the static loads; kind rotating with the chunk): 2-4 rounds of loads through the SAME library value and the same runtime, between which the harness reassigns RootDir / FSLibrary.FS (sibling, sub-directory, parent, other directory, \"\", back to the first; absolute, trailing slash, relative to the working directory, through a link), changes the working directory under a relative root, re-points a symbolic link the root is or passes through (directly, through a second link, with a sub-directory behind it), or changes the file tree (a file replaced by a link to another file, a directory - for RootDir also the root itself or an ancestor - swapped for a link to another directory, a link inside the root re-pointed); after every change the model is re-evaluated for the CURRENT configuration (root = what the current spelling resolves to in the current tree from the current working directory) and judges every load as in the static case; locations of a round: every regular file spelled absolutely, relative to the working directory and relative to the directory of every loading file, plus a quarter of the chunk's locations; contexts: top level, the loader files still reached without a link (LoadSource and interpreter), one regular file per real directory as loading file of a LoadSource call; finding keys end in @after:<kind of the last change>. " +
 			"A recording wrapper around the interpreter's library observes (loading context, request, true location) of every library call: the context of each nested call must be the true location the library returned for the file doing the loading. " +
 			"Driver: the real `elps run [--root-dir]` binary over ~600 (thorough 4000) locations x 8 invocations (two of them a file loading every location as the last element of (map 'list load-file '(file-of-another-directory LOCATION)), one a file loading every location through (load-string '(load-file LOCATION)' :name NAME) under a drawn and under a control stream name), and one strace'd worker (no successful open of an outside file between the sentinels of a load). " +
 			"A coverage key is lib|rootspec|context|entry|location-shape|outcome where location-shape = (form flags, #components bucket, '..' present, links followed: kind x position x inside/outside, model errno, final inside/outside, for both readings when they differ); loads whose location is a plain miss (ENOENT, no link, no '..') are counted as trivial and give no key.",
@@ -814,6 +815,14 @@ func c20Run(w *fw.W, idx int) {
 			}
 		}
 	}
+	// One history through one library value (and one runtime) per case: loads,
+	// a change of the configuration / the environment / the tree, loads again.
+	// It runs last because it mutates the sandbox.
+	var chunkLocs []string
+	for i := chunk; i < len(sb.locs); i += tp.chunks {
+		chunkLocs = append(chunkLocs, sb.locs[i])
+	}
+	c20RunHistory(w, st, sb, idx, layoutIdx, chunk, chunkLocs, ck.verbose)
 }
 
 type c20Checker struct {
@@ -833,10 +842,16 @@ type c20Checker struct {
 	keySuffix string
 	// the string-sourced context being judged (for descriptions)
 	strBy, strLabel, strClass string
+	// histories through one library value (c20_history.go): histSuffix names
+	// the kind of the change made last before the load being judged
+	// ("@after:rootdir-reassigned" ...) and ends every finding key; histDesc
+	// lists the steps of the history so far (for descriptions)
+	histSuffix string
+	histDesc   func() string
 }
 
 func (ck *c20Checker) report(key, summary string, detail func() string) {
-	key += ck.keySuffix
+	key += ck.keySuffix + ck.histSuffix
 	ck.st.reported[key]++
 	ck.rec.Count("violation:"+key, 1)
 	if ck.st.reported[key] > 2 {
@@ -883,7 +898,10 @@ func (ck *c20Checker) describe(lb *c20Lib, ld *sandbox.Loader, entry, loc string
 	if ld != nil {
 		ctx = fmt.Sprintf("%s (%s; candidate dirs %v)", ld.Label, ld.Spelled, ld.CtxDirs)
 	}
-	fmt.Fprintf(&sb, "layout   : %s\nsandbox  : %s (cwd %s)\nroot     : %s (real)\nlibrary  : %s", ck.l.Name, ck.l.Tree.BasePath, ck.l.Cwd.Path(), ck.l.Root.Path(), lb.label)
+	if ck.histDesc != nil {
+		sb.WriteString(ck.histDesc())
+	}
+	fmt.Fprintf(&sb, "layout   : %s\nsandbox  : %s (cwd %s)\nroot     : %s (real)\nlibrary  : %s", ck.l.Name, ck.l.Tree.BasePath, ck.l.Cwd.Path(), c20RootName(ck.l.Root), lb.label)
 	if lb.isFS {
 		fmt.Fprintf(&sb, " rooted at %s", lb.fsRoot)
 	} else {
@@ -951,8 +969,20 @@ func (ck *c20Checker) judgeServed(lb *c20Lib, ld *sandbox.Loader, entry, loc str
 	if served != nil && served.Under(root) && (ex.anyInside || ex.allowed[served]) {
 		return true
 	}
+	if lb.noRoot && served == nil {
+		// an unconfined library returned bytes of a file that is not part of the
+		// sandbox: nothing in the property forbids that (histories only)
+		ck.rec.Count("unconfined_served_non_sandbox_file_not_judged", 1)
+		return true
+	}
 	shape := c20Shape(ck.l, lb, ex, served, loc)
 	key := lb.family + ":" + shape
+	if ck.histSuffix != "" && !lb.noRoot && (served == nil || !served.Under(root)) {
+		// In a history the class of the input is the change that preceded the
+		// load (the key's suffix); the root the file lies outside of is the one
+		// the CURRENT configuration resolves to.
+		key = lb.family + ":serves-outside-root"
+	}
 	if lb.family == "relfs-relroot-dotdot" {
 		// one mechanism (the prefix test against a root spelled "..", see NOTES),
 		// whatever shape the location has
@@ -966,9 +996,27 @@ func (ck *c20Checker) judgeServed(lb *c20Lib, ld *sandbox.Loader, entry, loc str
 		ck.rec.Count("dirfs_symlink_escape_not_judged:"+shape, 1)
 		return false
 	}
-	ck.report(key, fmt.Sprintf("%s %s %s: location %q -> %s %s, which the model places outside what may be served (root %s)", lb.label, entry, c20CtxLabel(ld), loc, what, sp, root.Path()),
+	if lb.family == "dirfs" && !c20JudgeBareDirFS && ck.histSuffix != "" && strings.HasSuffix(what, "(transitively)") {
+		// A file loaded by the served file itself: in a history the tree changes,
+		// so the literal request of a served loader ("sub/ldr.lisp") may by now
+		// be a link out of the directory, which bare os.DirFS follows (not judged,
+		// see c20JudgeBareDirFS); the shape above describes the location under
+		// test, not that request.
+		ck.rec.Count("dirfs_symlink_escape_not_judged:transitive-in-history", 1)
+		return false
+	}
+	ck.report(key, fmt.Sprintf("%s %s %s: location %q -> %s %s, which the model places outside what may be served (root %s)", lb.label, entry, c20CtxLabel(ld), loc, what, sp, c20RootName(root)),
 		func() string { return ck.describe(lb, ld, entry, loc, ex) + what + ": " + sp + "\n" })
 	return false
+}
+
+// c20RootName renders a root directory for messages (histories know a root
+// that does not resolve to any directory).
+func c20RootName(root *fsmodel.Node) string {
+	if root.Parent == root && root.Name != "" {
+		return root.Name
+	}
+	return root.Path()
 }
 
 func c20CtxLabel(ld *sandbox.Loader) string {
@@ -1391,6 +1439,13 @@ func (ck *c20Checker) judgeRun(lb *c20Lib, ld *sandbox.Loader, entry, loc string
 		ck.rec.Count("loader_not_reached", 1)
 		ck.rec.Count("loader_not_reached:"+lb.kind+"/"+lb.spec+"/"+c20CtxLabel(ld), 1)
 		return sig
+	}
+	for _, n := range probes[:len(chain)] {
+		// the loading files themselves (always inside the root in the static
+		// layouts; in a history the root may have moved away from them)
+		if !n.Under(root) {
+			ck.judgeServed(lb, ld, entry, loc, ex, n, "evaluated (as a loading file)")
+		}
 	}
 	rest := probes[len(chain):]
 	if len(rest) == 0 {
